@@ -138,5 +138,25 @@ func corpusC02() []Case {
 	s.Do(0, root, &nfsx.Req{Proc: "READDIR", H: d, Cnt: 4096})
 	s.Do(0, root, &nfsx.Req{Proc: "LOOKUP", H: 1, Name: []byte("e")})
 	out = append(out, s.Case("rename-directory-with-cached-children", 1))
+	// negative entry below a directory that is removed and whose ancestor becomes a regular file
+	s = mk(true, true)
+	a := *s.Do(0, root, &nfsx.Req{Proc: "MKDIR", H: 1, Name: []byte("a")}).Obs.FH
+	b := *s.Do(0, root, &nfsx.Req{Proc: "MKDIR", H: a, Name: []byte("b")}).Obs.FH
+	s.Do(0, root, &nfsx.Req{Proc: "LOOKUP", H: b, Name: []byte("c")})
+	s.Do(0, root, &nfsx.Req{Proc: "RMDIR", H: a, Name: []byte("b")})
+	s.Do(0, root, &nfsx.Req{Proc: "RMDIR", H: 1, Name: []byte("a")})
+	s.Do(0, root, &nfsx.Req{Proc: "CREATE", H: 1, Name: []byte("a")})
+	s.Do(0, root, &nfsx.Req{Proc: "LOOKUP", H: b, Name: []byte("c")})
+	out = append(out, s.Case("negative-entry-below-removed-directory", 2))
+	// ... and the variant where the negative entry is cached after the removals, before a regular file takes the name
+	s = mk(true, true)
+	a = *s.Do(0, root, &nfsx.Req{Proc: "MKDIR", H: 1, Name: []byte("a")}).Obs.FH
+	b = *s.Do(0, root, &nfsx.Req{Proc: "MKDIR", H: a, Name: []byte("b")}).Obs.FH
+	s.Do(0, root, &nfsx.Req{Proc: "RMDIR", H: a, Name: []byte("b")})
+	s.Do(0, root, &nfsx.Req{Proc: "RMDIR", H: 1, Name: []byte("a")})
+	s.Do(0, root, &nfsx.Req{Proc: "LOOKUP", H: b, Name: []byte("c")})
+	s.Do(0, root, &nfsx.Req{Proc: "CREATE", H: 1, Name: []byte("a")})
+	s.Do(0, root, &nfsx.Req{Proc: "LOOKUP", H: b, Name: []byte("c")})
+	out = append(out, s.Case("negative-entry-below-new-file", 3))
 	return out
 }
